@@ -192,7 +192,8 @@ def attr_text(f: Field, idx_for_spelling=0):
     parts = {'r': rng, 'a': f.access or None,
              's': ((f"stride = {f.arr[1]}" if f.stride_sep == '=' else f"stride: {f.arr[1]}") if (f.arr and f.stride_explicit) else None)}
     order = getattr(f, "arg_order", "ras") or "ras"
-    return head + "(" + ", ".join(parts[k] for k in order if parts[k]) + ")"
+    trailing = "," if order.endswith(",") else ""
+    return head + "(" + ", ".join(parts[k] for k in order if k in parts and parts[k]) + trailing + ")"
 
 
 def field_text(f: Field, i=0):
